@@ -56,7 +56,7 @@ class C07(Check):
         gen = mod.func(GEN)
         body = strip_docstring(gen.body)
         sc = Scope(gen)
-        self.borrow("C06", ("S2", "S3", "S4", "S5", "S6", "S7", "S9", "S10", "S11", "S12", "S13"), "G10")
+        self.borrow("C06", ("S2", "S3", "S4", "S5", "S6", "S7", "S9", "S10", "S11", "S12", "S13", "S14"), "G10")
         # ---- G1
         emit_loops = []
         for lp in [s for s in body if isinstance(s, ast.For)]:
